@@ -184,6 +184,12 @@ def run_one(seed, tape, opts):
             # connection); counted.
             sim.note("probe.using_already_dead_connection")
             return None
+        if e.transport.disconnecting:
+            # the Manager has asked this connection to close (abandoning /
+            # stopping): it is neither "a connection whose buffer drained"
+            # nor "no connection" yet. Not judged; counted.
+            sim.note("probe.connection_closing")
+            return None
         return not e.transport.producerPaused
     ctx.writable = writable
 
